@@ -74,7 +74,8 @@ def run_one(m):
                            stderr=subprocess.STDOUT, text=True)
         out = r.stdout
         res["exit"] = r.returncode
-        if m.get("equivalent") and os.environ.get("VERIF_SELFTEST_ALLPROPS") and r.returncode == 0:
+        if m.get("equivalent") and os.environ.get("VERIF_SELFTEST_ALLPROPS") and r.returncode == 0 and \
+                not m.get("own_property_only"):
             # a behaviour-preserving edit must keep *every* claimed property's check silent
             man = json.load(open(os.path.join(VERIF, "MANIFEST.json")))
             for c in man["checks"]:
